@@ -14,7 +14,7 @@ ASSUMPTIONS = [
     "router messages are message objects (parsing is C08); the router follows the WAMP session state machine except for one illegal message at a free position",
 ]
 BOUNDS = {
-    "quick": "event sequences of length <= 4 after connect over {CHALLENGE, WELCOME, ABORT, GOODBYE, illegal message (5 kinds), local leave, local disconnect, transport loss}; pending requests of all 6 kinds present or not; user callbacks onJoin/onLeave/onChallenge/onWelcome/onDisconnect raising or not (one at a time); a second session joined on the same transport",
+    "quick": "event sequences of length <= 4 after connect over {CHALLENGE, WELCOME, ABORT, GOODBYE, illegal message (5 kinds), local leave, local disconnect, transport loss}; pending requests of all 6 kinds present or not; user callbacks onJoin/onLeave/onChallenge/onWelcome/onDisconnect raising or not (one at a time); a second session joined on the same transport; applications reacting during teardown: a retry issued from the errback of a pending call, leave() called from onLeave (react/ units)",
     "thorough": "sequences of length <= 5 (length 6 was measured: > 4.4 million paths, over the 40 min budget), one raising callback at a time, pending requests together with each raising callback",
 }
 EXPECT_COVERS = ["react:retry", "end:goodbye-by-router", "end:goodbye-by-us", "end:abort", "end:transport-lost-joined", "end:transport-lost-unjoined", "illegal:ProtocolError", "pending:errbacked", "after:raises", "rejoin"]
